@@ -55,13 +55,13 @@ import TaRs.Lemmas.PercentagePriceOscillator
 import TaRs.Lemmas.BollingerBands
 import TaRs.Lemmas.TrueRange
 import TaRs.Lemmas.AverageTrueRange
-import TaRs.Lemmas.FastStochastic
-import TaRs.Lemmas.SlowStochastic
+import TaRs.Lemmas.Core.FastStochastic
+import TaRs.Lemmas.Core.SlowStochastic
 import TaRs.Lemmas.KeltnerChannel
-import TaRs.Lemmas.ChandelierExit
-import TaRs.Lemmas.CommodityChannelIndex
-import TaRs.Lemmas.MoneyFlowIndex
-import TaRs.Lemmas.OnBalanceVolume
+import TaRs.Lemmas.Core.ChandelierExit
+import TaRs.Lemmas.Core.CommodityChannelIndex
+import TaRs.Lemmas.Core.MoneyFlowIndex
+import TaRs.Lemmas.Core.OnBalanceVolume
 import TaRs.Lemmas.DataItem
 
 namespace TaRs.Props.C10
